@@ -215,6 +215,12 @@ def c09_models(tier, ruin="done"):
     for nm, sp in (("crash-two-margined", ["F4", "G1"]), ("crash-two-margined-rev", ["G1", "F4"])):
         ms.append(full_model(nm, ["F4", "G1"], sp, grid, ev_h, tg2, lats=(0,), delays=(0,), maxsteps=3, ruin=ruin,
                              invariants=C09_INV, properties=C09_PROPS))
+    # a quote of exactly zero (a price like any other) on a 2x short, then a rebound far above the entry: the losses of the
+    # rebound are settled from the mark at zero
+    ev_z = bars(grid, {"S1": [12, 12, 12, 12, 12], "F4": [12, 0, 40, 12, 12]}, 0)
+    ms.append(full_model("crash-zero-quote", ["S1", "F4"], ["S1", "F4"], grid, ev_z, [{"F4": F(-4)}, {"F4": F(-2)}, {}], lats=(0,),
+                         delays=(0,), deposit=F(128), maxsteps=4, ruin=ruin, measure="lots", invariants=C09_INV,
+                         properties=C09_PROPS))
     # actions in numbers of contracts (a space declared with as_weights=False): 3 lots bought on margin at 64, the price
     # falls to 16 and NLV to -16; a decision to sell arrives: nothing executes, the episode ends
     ev_l = bars(grid, {"S1": [64, 64, 16, 64, 64], "F4": [12, 12, 12, 12, 12]}, 0)
